@@ -855,6 +855,18 @@ def guard(F, rep):
                    name, "and consults its visited set `%s` first" % pat_bindings(seen_params[0]["pat"])[0]["name"] if seen_params and consulted else
                    "without a visited set: unification performs no occurs check, so a cyclic type (t = (t, 1)) makes it recurse until "
                    "the native stack overflows (process abort)"), fn["sp"])
+        # the node is marked *before* the walk goes into its components: a mark that is only set afterwards never meets the
+        # node it is working on, and a type that contains itself (unification makes those: `fn g do g(g) end`) recurses for ever
+        if seen_params and consulted:
+            order = [id(x) for x in nodes(body)]
+            seen_h = {b["hid"] for prm in seen_params for b in pat_bindings(prm["pat"])}
+            marks = [order.index(id(c)) for c in nodes(body, "MethodCall") if c["m"] in ("insert", "entry") and peel(c["recv"]).get("hid") in seen_h]
+            recs_i = [order.index(id(c)) for c in nodes(body, "MethodCall") if callee(c) == p]
+            marked_first = bool(marks) and bool(recs_i) and min(marks) < min(recs_i)
+            rep.ob("GUARD", name + "|marks-before-recursing", marked_first,
+                   "TypeChecker::%s enters the node into its visited set before it recurses into the components" % name if marked_first else
+                   "TypeChecker::%s recurses into the components of a type before the type itself is entered into the visited set: on a "
+                   "type that contains itself the recursion never ends (native stack overflow, no error reported)" % name, fn["sp"])
         # the visited set is keyed on the nodes of the call: it only ends the recursion if no arm keeps inventing new
         # nodes to recurse on (or takes entries out of the set again)
         fresh_rec = None
